@@ -158,8 +158,9 @@ Definition logit_series cdfs (actions : list Z) (ds : list (Z * T)) :=
 End Generic.
 
 (* ---------- BRD / KMR / SamplingBRD  (exact arithmetic on payoffs) ---------- *)
-Definition cumsumZ (l : list Z) : list Z :=
-  snd (fold_left (fun acc x => let s := fst acc + x in (s, snd acc ++ [s])) l (0, [])).
+Fixpoint cumsumZ_from (acc : Z) (l : list Z) : list Z :=
+  match l with [] => [] | x :: r => (acc + x) :: cumsumZ_from (acc + x) r end.
+Definition cumsumZ (l : list Z) : list Z := cumsumZ_from 0 l.
 
 (* np.searchsorted(action_dist.cumsum(), player_ind, side='right') *)
 Definition revising_action (dist : list Z) (p : Z) : Z := ss_right (cumsumZ dist) p.
@@ -239,10 +240,10 @@ Definition localint_step (A adj : list (list Q)) (tol : Q) (actions : list Z) (d
   end.
 Definition localint_series A adj tol actions (ds : list (option Z)) := run (localint_step A adj tol) actions ds.
 
-(* the definition the loop implements: every revising player best-responds to the OLD profile *)
-Definition localint_closed (A adj : list (list Q)) (tol : Q) (actions : list Z) (players : list Z)
-  : list (option Z) :=
-  map (fun i => if existsb (Z.eqb i) players
-                then best_response (mat_vec A (neighbour_counts (zlen A) (nth (Z.to_nat i) adj []) actions)) tol
-                else Some (zget actions i))
-      (zrange (zlen actions)).
+(* the definition the loop implements, player by player: a revising player best-responds to the
+   OLD profile, everybody else keeps his action *)
+Definition localint_closed_at (A adj : list (list Q)) (tol : Q) (actions : list Z) (players : list Z)
+  (j : Z) : option Z :=
+  if existsb (Z.eqb j) players
+  then best_response (mat_vec A (neighbour_counts (zlen A) (nth (Z.to_nat j) adj []) actions)) tol
+  else Some (zget actions j).
